@@ -54,6 +54,7 @@ struct Config {
   uint64_t hang_s{20};
   bool arbitrary_versions{false};
   bool step{false};  // trap-flag stepper inside library calls
+  bool edge{false};  // probe the edge of the shared counter before the workload
   bool coupling{false};  // optimistic lock coupling: verify lock i while holding a grant on lock j > i
   uint32_t weights[kOpCount]{};
 };
@@ -78,6 +79,7 @@ SetPhase(uint32_t phase, int lock_index, int op)
 }
 
 std::atomic<uint64_t> g_stepped_calls{0};
+std::atomic<uint64_t> g_edge_probes{0};
 struct LibCall {
   bool stepped{false};
   LibCall(uint32_t phase, int lock_index, int op)
@@ -1189,6 +1191,83 @@ Run()
     g_plan.prob[kCpInCs] = std::max<uint32_t>(g_plan.prob[kCpInCs], 1500);
   }
 
+  if (g_cfg.edge) {
+    // Edge of the shared counter: one thread takes K shared grants on a lock nobody else uses (K on both sides of 2^14
+    // and 2^15 - 1 for MCSLock's 15-bit counter, 70000 for the others), releases one, and an exclusive request of
+    // another thread must stay blocked while the other K - 1 are alive and be granted once they are gone.
+    static L edge_lock{};
+    const std::vector<size_t> ks = T::kMcs ? std::vector<size_t>{16385, 32767, 16384} : std::vector<size_t>{70000};
+    std::atomic<int> probe_done{0};
+    std::atomic<uint64_t> probe_progress{0};
+    std::thread probe_watchdog{[&] {
+      // every step of the probe must return: taking, releasing and handing over K shared grants
+      uint64_t last = ~0ULL, since = NowNs();
+      while (probe_done.load() == 0) {
+        SleepNs(10000000);
+        const auto v = probe_progress.load();
+        if (v != last) {
+          last = v;
+          since = NowNs();
+        } else if (NowNs() - since > 2 * g_cfg.hang_s * 1000000000ULL) {
+          Violate("C02", Fmt("%s:no-progress:many-shared-grants", T::kName),
+                  Fmt("class=%s: taking or releasing many shared grants of one lock made no progress for %" PRIu64 " s (step %" PRIu64 ")", T::kName,
+                      2 * g_cfg.hang_s, v));
+          Result res;
+          res.Add("hangs", 1);
+          EmitResult(res, "hang");
+          fflush(stdout);
+          _exit(0);
+        }
+      }
+    }};
+    for (const auto k : ks) {
+      std::vector<typename L::SGuard> guards;
+      guards.reserve(k);
+      for (size_t i = 0; i < k; ++i) {
+        guards.emplace_back(edge_lock.LockS());
+        probe_progress.fetch_add(1, kRlx);
+      }
+      guards.pop_back();
+      probe_progress.fetch_add(1, kRlx);
+      std::atomic<int> granted{0}, done{0};
+      std::thread helper{[&] {
+        auto x = edge_lock.LockX();
+        granted.store(1);
+        while (done.load() == 0) sched_yield();
+      }};
+      SleepNs(30000000);
+      if (granted.load() != 0) {
+        Violate("C01", Fmt("%s:Lock-granted-X-while-conflicting-grant-held:many-shared-grants", T::kName),
+                Fmt("class=%s: LockX was granted while %zu of %zu shared grants taken on the lock were still alive", T::kName, k - 1, k));
+        Result res;  // the lock is in an undefined state now: report at once
+        res.Add("shared_counter_edge_probes", g_edge_probes.load() + 1);
+        EmitResult(res, "violation");
+        fflush(stdout);
+        _exit(0);
+      }
+      while (!guards.empty()) {
+        guards.pop_back();
+        probe_progress.fetch_add(1, kRlx);
+      }
+      const auto tw = NowNs();
+      while (granted.load() == 0 && NowNs() - tw < g_cfg.hang_s * 1000000000ULL) sched_yield();
+      if (granted.load() == 0) {
+        Violate("C02", Fmt("%s:no-progress:LockX-after-many-shared-grants-were-released", T::kName),
+                Fmt("class=%s: %zu shared grants were taken and all released, yet LockX is not granted within %" PRIu64 " s", T::kName, k, g_cfg.hang_s));
+        Result res;
+        res.Add("hangs", 1);
+        EmitResult(res, "hang");
+        fflush(stdout);
+        _exit(0);
+      }
+      done.store(1);
+      helper.join();
+      g_edge_probes.fetch_add(1, kRlx);
+      probe_progress.fetch_add(1, kRlx);
+    }
+    probe_done.store(1);
+    probe_watchdog.join();
+  }
   const auto t0 = NowNs();
   std::vector<std::thread> th;
   for (int i = 0; i < g_cfg.threads; ++i) th.emplace_back([i] { eng.Worker(i); });
@@ -1402,6 +1481,7 @@ Run()
   res.Add("evaluations", g_ops_done.load());
   res.Add("runs", 1);
   res.Add("wall_ms", wall / 1000000);
+  if (g_cfg.edge) res.Add("shared_counter_edge_probes", g_edge_probes.load());
   if (g_cfg.step) {
     res.Add("stepper_calls_single_stepped", g_stepped_calls.load());
     res.Add("stepper_stalls_at_single_instructions", g_step_stalls.load());
@@ -1462,6 +1542,7 @@ main(int argc, char **argv)
   g_cfg.hang_s = a.U("hang_s", 20);
   g_cfg.arbitrary_versions = a.U("arbver", 0) != 0;
   g_cfg.coupling = a.U("coupling", 0) != 0;
+  g_cfg.edge = a.U("edge", 0) != 0;
   g_cfg.step = VERIF_STEPPER && a.U("step", 0) != 0;
   if (g_cfg.step) StepperInstall();
   if (a.U("preempt", 0) != 0) PreempterStart(g_cfg.seed, 30, 400, 10, 200);
